@@ -117,7 +117,11 @@ def finalize_expected(ev, cbs, raising):
     return out
 
 
-def scenario_case(ch, segidx, glue, tls, cbs, raising, reconnect=None):
+LOSS_TAIL = {"boundary": b"", "midframe": R.encode(R.BINARY, bytes(300))[:7], "midmessage": R.encode(R.TEXT, b"part", fin=0),
+             "midheader": b"\x81"}
+
+
+def scenario_case(ch, segidx, glue, tls, cbs, raising, reconnect=None, loss="boundary"):
     pieces = []
     t = 1.0
     for i in segidx:
@@ -138,7 +142,8 @@ def scenario_case(ch, segidx, glue, tls, cbs, raising, reconnect=None):
     if reconnect is not None:
         # first connection: one text at t=1 then EOF at t=2; reconnect interval 1 -> second connection opens at t=3
         def mk0():
-            return tnet.ServerPeer(script=[(1.0, "data", R.encode(R.TEXT, b"first")), (2.0, "eof", b"")])
+            # ... possibly with an unfinished frame / message in between, of which nothing may reach the second connection
+            return tnet.ServerPeer(script=[(1.0, "data", R.encode(R.TEXT, b"first"))] + ([(1.5, "data", LOSS_TAIL[loss])] if LOSS_TAIL[loss] else []) + [(2.0, "eof", b"")])
         attempts = [mk0, mk]
         run_kwargs["reconnect"] = 1
         if reconnect == "with-on_reconnect":
@@ -147,8 +152,10 @@ def scenario_case(ch, segidx, glue, tls, cbs, raising, reconnect=None):
     run = appsim.AppRun(ch, spec)
     res = run.execute()
     label = "segments %s%s %s callbacks=%s raising=%s%s" % ([SEGS[i][0] for i in segidx], " (first glued to the 101)" if glue else "", "TLS" if tls else "plain",
-                                                        ",".join(c[3:] for c in cbs_all) or "none", raising, " reconnect=%s" % reconnect if reconnect else "")
+                                                        ",".join(c[3:] for c in cbs_all) or "none", raising, " reconnect=%s (first connection lost at: %s)" % (reconnect, loss) if reconnect else "")
     sig = {"tls": tls, "glue": glue}
+    if reconnect and loss != "boundary":
+        sig["loss"] = loss
     if res["abort"]:
         raise Violation(dict(sig, kind="run-aborted"), "%s: %s" % (label, res["abort"]))
     # expected
@@ -211,12 +218,15 @@ def iter_cases(desc):
                             if raising is not None and raising not in cbs:
                                 continue
                             yield {"segidx": list(segidx), "glue": glue, "tls": desc["tls"], "cbs": list(cbs), "raising": raising, "reconnect": rc}
+        for segidx in ((i,) for i in range(len(SEGS))):
+            for loss in ("midframe", "midmessage", "midheader"):
+                yield {"segidx": list(segidx), "glue": False, "tls": desc["tls"], "cbs": list(CB7), "raising": None, "reconnect": "with-on_reconnect", "loss": loss}
 
 
 def run_case(c, choices=()):
     from ..explore import Chooser
     ch = Chooser(list(choices))
-    return scenario_case(ch, tuple(c["segidx"]), c["glue"], c["tls"], tuple(c["cbs"]), c["raising"], c["reconnect"])
+    return scenario_case(ch, tuple(c["segidx"]), c["glue"], c["tls"], tuple(c["cbs"]), c["raising"], c["reconnect"], c.get("loss", "boundary"))
 
 
 def run_task(desc):
